@@ -15,6 +15,9 @@ CONSTANTS
   MaxFaults = 0
   DeferUnlock = TRUE
   StickyError = TRUE
+  LiveKind = 0
+  MaxTicks = 0
+  ResolveOnDerive = FALSE
   MaxH = 100000
   MaxLogs = 0
   MaxGroups = 0
